@@ -15,7 +15,7 @@ git -C /repo worktree add -q --detach $wt HEAD || exit 2
 cleanup() { cd /; git -C /repo worktree remove --force $wt 2>/dev/null; rm -rf /tmp/swt/$tag; }
 trap cleanup EXIT
 git -C $wt apply $d/patch.diff || { echo "patch does not apply"; exit 2; }
-cp -r /verif/harness $hw && rm -rf $hw/bin
+cp -r ${HARNESS_SRC:-/verif/harness} $hw && rm -rf $hw/bin
 sed -i "s#=> /repo#=> $wt#" $hw/go.mod
 cp $wt/go.sum $hw/go.sum 2>/dev/null
 cd $hw
